@@ -262,7 +262,7 @@ func evaluate(r *rig, res *fw.Result, op *operation, fed []fedConfig, steps []st
 // answer to a superset operation: nothing found there is judged by the caller.
 func walkAnswer(r *rig, res *fw.Result, e *evaluated, op *operation, data map[string]any, lenient bool) *acc {
 	a := newAcc()
-	o := &oracle{m: r.model, mp: r.mapping, frags: map[string]*fragDef{}, lenient: lenient}
+	o := &oracle{m: r.model, mp: r.mapping, frags: map[string]*fragDef{}, lenient: lenient, calls: e.lr.calls}
 	for _, f := range op.frags {
 		o.frags[f.name] = f
 	}
@@ -306,7 +306,7 @@ func walkAnswer(r *rig, res *fw.Result, e *evaluated, op *operation, data map[st
 		}
 		if !present {
 			a.viol = append(a.viol, shapeViolation{kind: "shape.missing-key", path: "data", where: where,
-				msg: fmt.Sprintf("data lacks response key %q (root field %s); keys present: %v", g.key, g.name, keysOf(data)),
+				msg:   fmt.Sprintf("data lacks response key %q (root field %s); keys present: %v", g.key, g.name, keysOf(data)),
 				facts: rootPC.facts(map[string]string{"position": where, "aliased": fmt.Sprint(g.key != g.name), "in_abstract": "false", "field_kind": "root", "same_field_under_other_key": "false"})})
 			continue
 		}
